@@ -33,6 +33,12 @@ DECIMAL_EXPRS = [
     "math:pow(2, 100)", "xs:double('1e308') * 10", "xs:decimal('0.000000000000000000000000000001') div 3",
     "string(xs:decimal('1.000000000000000000000000000000'))", "abs(-12345678901234567890123456789.123456789)",
     "floor(12345678901234567890123456789.9) + ceiling(0.1)", "xs:float('3.4e38') * 10",
+    # operations on big decimals that fail half-way (a zero divisor, an overflow, an invalid operation)
+    "1000000000000000000000000000000.5 mod 0.0", "1000000000000000000000000000000.5 mod 7", "1000000000000000000000000000000.5 idiv 0.0",
+    "1000000000000000000000000000000.5 div 0.0", "xs:decimal('1E+40') mod xs:decimal('0')", "12345678901234567890123456789012345.5 mod 0.5",
+    "round(xs:decimal('1E+40') div 0)", "xs:decimal('9' || '9999999999999999999999999999999999999999') * xs:decimal('1E+999999')",
+    "format-number(xs:decimal('1E+40') mod 0.0, '0')", "avg((xs:decimal('1E+40'), 'x'))", "sum((xs:decimal('1E+40'), xs:dayTimeDuration('PT1S')))",
+    "xs:decimal('1E+40') idiv xs:decimal('1E-40')", "1000000000000000000000000000000.5 mod xs:double('NaN')",
 ]
 
 PROBES = [
